@@ -278,7 +278,7 @@ Proof.
   intros Hp H. unfold quotient_get_terms in H.
   destruct (n <? _); [inversion H; subst; intros k v []|].
   destruct (acc_entries (-1) _ _) as [a|e]; simpl in H; [|discriminate].
-  destruct (acc_entries 1 [] _) as [c|e]; simpl in H; [|discriminate].
+  match type of H with bind ?X _ = _ => destruct X as [c|e] end; simpl in H; [|discriminate].
   destruct (quotient_divide num a c) as [b|e]; simpl in H; [|discriminate].
   apply (quotient_collect_keys Pk ppm Hp b [] r); [intros k v []|exact H].
 Qed.
